@@ -54,6 +54,12 @@ def extractDominated (S : Nat) (l : VList) : VList :=
   let r := extractDominatedArr S l.toArray l.length
   r.1.toList.take r.2
 
+/-- multiset inclusion of whole entries (the driver's "moved whole" clause on the implementation's kept prefix):
+    `out` can be obtained from `inp` by deleting entries -/
+def subMultiset : List VEntry → List VEntry → Bool
+  | [], _ => true
+  | e :: out, inp => if inp.contains e then subMultiset out (inp.erase e) else false
+
 /-! ## Pruner::operator() with the LP as an oracle -/
 
 /-- `findBestAtSimplexCorner(s, begin, end)` over positions `[0, en)` of the array: running best with veccmp tie-break -/
